@@ -51,10 +51,7 @@ func (Driver) Info() core.Info {
 }
 
 func (Driver) Batches(tier string) int {
-	if tier == "thorough" {
-		return 64
-	}
-	return 16
+	return ownBatches(tier) + guestRounds(tier)*len(guestDrivers)
 }
 
 type family struct {
@@ -83,6 +80,10 @@ func init() {
 }
 
 func (Driver) Run(c *core.Ctx) {
+	if c.Batch >= ownBatches(c.Tier) {
+		runGuest(c)
+		return
+	}
 	m := newMonitor(c)
 	weights := make([]int, len(families))
 	for i, f := range families {
